@@ -9,6 +9,7 @@ CONSTANTS
   LeafVals = {}
   UnOps = {}
   BinOps = {}
+  CtorShapes = {}
 CONSTRAINT HighWater
 POSTCONDITION TraceAccepted
 INVARIANTS C08_Shape C08_Frame C08_Retire C01_TotalSmall
